@@ -133,7 +133,8 @@ class TypeDef:
                 elif v["kind"] == "tuple":
                     lines.append("    %s(%s)," % (v["name"], ", ".join(rust_ty(t) for t in v["tys"])))
                 else:
-                    lines.append("    %s { %s }," % (v["name"], ", ".join("%s: %s" % (f["name"], rust_ty(f["ty"])) for f in v["fields"])))
+                    lines.append("    %s { %s }," % (v["name"], ", ".join("%s%s: %s" % ("".join("#[serde(%s)] " % a for a in f.get("attrs", [])), f["name"], rust_ty(f["ty"]))
+                                                                       for f in v["fields"])))
             lines.append("}")
         # samples
         vals = []
@@ -272,6 +273,16 @@ def universes(tier):
             else:
                 vs = vs[::-1]   # untagged: the variant with a member first (an empty open struct variant would swallow every object)
             add(TypeDef(nm(), "enum", variants=vs, tagging=tagging, attrs=["deny_unknown_fields"] if deny else []), desc="enum:%s[empty struct variant]%s" % (tagging, "{deny}" if deny else ""))
+    # struct variants ALL of whose members may be absent (Option<_> / #[serde(default)]): no member is required, yet the variant has data
+    for tagging in TAGGINGS:
+        for deny in (False, True):
+            vs = [{"name": "Sleep", "kind": "struct", "fields": [{"name": "millis", "ty": ("opt", "i32")}, {"name": "note", "ty": ("opt", "String")}]},
+                  {"name": "Wake", "kind": "struct", "fields": [{"name": "level", "ty": "i32", "attrs": ["default"]}]}]
+            if tagging != "untagged":
+                vs.append({"name": "Halt", "kind": "unit"})
+            else:
+                vs = [{"name": "GoTo", "kind": "struct", "fields": [{"name": "line", "ty": "i32"}]}] + vs[:1]
+            add(TypeDef(nm(), "enum", variants=vs, tagging=tagging, attrs=["deny_unknown_fields"] if deny else []), desc="enum:%s[all-optional struct variant]%s" % (tagging, "{deny}" if deny else ""))
     for deny in (False, True):
         add(TypeDef(nm(), "struct", [], attrs=["deny_unknown_fields"] if deny else []), desc="struct0%s" % ("{deny}" if deny else ""))
     # custom default functions (#[serde(default = "f")]): field type x {zero-like, non-zero} value; schemars writes f()'s value as `default`
